@@ -114,6 +114,13 @@ def strip_blocks(t):
         if isinstance(x, list):
             if len(x) == 2 and x[0] == "block":
                 return go(x[1])
+            if len(x) == 2 and x[0] == "flt" and isinstance(x[1], str) and len(x[1]) == 16 and int(x[1], 16) >> 63:
+                # a negative number lifted from the macro stage is a negative literal, which no source text can contain:
+                # its hand-written expansion spells it `0.0 - x` (and negative zero `0.0 * (0.0 - 1.0)`), see stagegen.num_node
+                zero, mag = ["flt", "0" * 16], "%016x" % (int(x[1], 16) & ((1 << 63) - 1))
+                if mag == "0" * 16:
+                    return ["app", ["var", "mult"], zero, ["app", ["var", "sub"], zero, ["flt", "3ff0000000000000"]]]
+                return ["app", ["var", "sub"], zero, ["flt", mag]]
             if len(x) == 3 and x[0] == "feed" and not _mentions(x[2], x[1]):
                 return go(x[2])
             return [go(y) for y in x]
